@@ -30,7 +30,7 @@ func genC02(t *rapid.T, _ *evid.Rec) caseC02 {
 	c := caseC02{}
 	c.NowDay = rapid.IntRange(model.DaysFromCivil(2000, 1, 1), model.DaysFromCivil(2030, 1, 1)).Draw(t, "nowDay")
 	c.NowMin = rapid.IntRange(0, 1439).Draw(t, "nowMin")
-	o := gen.Opts{PlainSummary: true}
+	o := gen.Opts{} // summaries incl. entry look-alikes (`1h 30m …`), tags, Unicode
 	if rapid.Bool().Draw(t, "nearNow") {
 		o.NearDay = c.NowDay
 		o.NearSpan = 2
